@@ -92,7 +92,7 @@ theorem cloneWithPrefixes_serialises (env : Env) (f : Forest) (inv : f.Inv)
   generalize hK' : (addSpec (A ++ B) f1.next order).1 = K' at hshape hmono hdecl ⊢
   subst hshape
   -- declarations of the source = declarations of the clone before the loop
-  have hdsrc : declsOfKids Ks = A.filterMap (fun k => nsPair k.value) := by
+  have hdsrc : declsOfKids Ks = A.filterMap (fun k => fcNsPair k.value) := by
     rw [← declsOfKids_split A B hA hB, ← nsDecls_erase c (.element name), ← nsDecls_erase hs (.element name)]
     simp only [erase]
     rw [hKe, hE1]
@@ -128,14 +128,14 @@ theorem cloneWithPrefixes_serialises (env : Env) (f : Forest) (inv : f.Inv)
   have H1 : ∀ b ∈ ((FStack.new []).push (declsOfKids Ks)).top,
       b ∈ ((FStack.new L0).push (declsOfKids (A ++ New ++ B))).top := by
     intro b hb
-    rw [push_top, mem_fullnameInfoNew] at hb ⊢
+    rw [push_top, fc_mem_fullnameInfoNew] at hb ⊢
     rcases hb with h | ⟨h, _⟩
     · left; rw [hdsrc] at h; exact hmono b h
     · simp [FStack.new, FStack.top] at h
   have H2 : ∀ b ∈ (sS.push (declsOfKids Ks)).top, U b.2 →
       b ∈ ((FStack.new L0).push (declsOfKids (A ++ New ++ B))).top := by
     intro b hb hU
-    rw [push_top, mem_fullnameInfoNew] at hb ⊢
+    rw [push_top, fc_mem_fullnameInfoNew] at hb ⊢
     left
     rcases hb with h | ⟨h, hk⟩
     · rw [hdsrc] at h; exact hmono b h
@@ -184,7 +184,7 @@ theorem cloneWithPrefixes_serialises (env : Env) (f : Forest) (inv : f.Inv)
       HasDefault (sS.push (declsOfKids Ks)).top := by
     rintro ⟨n, hm, hn⟩
     refine ⟨n, ?_, hn⟩
-    rw [push_top, mem_fullnameInfoNew] at hm ⊢
+    rw [push_top, fc_mem_fullnameInfoNew] at hm ⊢
     rcases hm with h | ⟨h, hk⟩
     · rcases hsub _ h with h' | ⟨h1, h2⟩
       · left; rw [hdsrc]; exact h'
